@@ -10,42 +10,67 @@ import ZckModel.Pred.Read
 namespace Zck.C15
 open Zck Zck.Format Zck.Reader
 
-/-- a sequence of `zck_read` calls with the given buffer sizes: all bytes written to the caller's
-buffers, in order (including whatever a failing call had already copied), and the final context -/
-def readCalls (H : HashFn) (D : Decomp) (f : Bytes) : Ctx → List Nat → Bytes × Ctx
+/-- what a consumer may do between reads -/
+inductive Call where
+  | read (n : Nat)      -- zck_read with a buffer of n bytes
+  | clearError          -- zck_clear_error
+deriving Repr, DecidableEq
+
+/-- a sequence of calls on one context: all bytes written to the caller's buffers, in order
+(including whatever a failing call had already copied), and the final context -/
+def readCalls (H : HashFn) (D : Decomp) (f : Bytes) : Ctx → List Call → Bytes × Ctx
   | c, [] => ([], c)
-  | c, n :: ns =>
+  | c, .read n :: ns =>
     let r := compRead H D f c n
     let rest := readCalls H D f r.2 ns
     (r.1.bytes ++ rest.1, rest.2)
+  | c, .clearError :: ns => readCalls H D f (clearError c).2 ns
 
 /-- **sticky error**: once the context is in an error state a read returns -1 and no bytes -/
 theorem err_sticky (H : HashFn) (D : Decomp) (f : Bytes) (c : Ctx) (n : Nat) (h : c.err = true) :
     compRead H D f c n = (⟨-1, []⟩, c) := by
   unfold compRead; simp [h]
 
-theorem readCalls_err (H : HashFn) (D : Decomp) (f : Bytes) (c : Ctx) (ns : List Nat) (h : c.err = true) :
-    (readCalls H D f c ns).1 = [] := by
+/-- a fatal error cannot be cleared: nothing is ever handed out again -/
+theorem readCalls_fatal (H : HashFn) (D : Decomp) (f : Bytes) (c : Ctx) (ns : List Call)
+    (hf : c.fatal = true) (h : c.err = true) : (readCalls H D f c ns).1 = [] := by
   induction ns with
   | nil => rfl
   | cons n ns ih =>
-    simp only [readCalls, err_sticky H D f c n h, List.nil_append]
-    exact ih
+    cases n with
+    | read n =>
+      simp only [readCalls, err_sticky H D f c n h, List.nil_append]
+      exact ih
+    | clearError =>
+      simp only [readCalls, clearError, hf, ↓reduceIte]
+      exact ih
 
-/-- **C15 (every history of reads)**: with unit-decoded chunks (any compression type other than
-"none"), for every file, every context satisfying the reader invariant and every sequence of
-buffer sizes, everything the calls hand out is a prefix of: what was already buffered, followed
-by decoded content of chunks whose stored bytes match their index checksum (`Good`). -/
+theorem clearError_inv (c : Ctx) : (clearError c).2.hdr = c.hdr ∧ (Inv c → Inv (clearError c).2) ∧
+    (InvD c → InvD (clearError c).2) ∧ (clearError c).2.dc = c.dc := by
+  unfold clearError
+  split
+  · exact ⟨rfl, id, id, rfl⟩
+  · exact ⟨rfl, id, id, rfl⟩
+
+/-- **C15 (every history of reads and error clearings)**: with unit-decoded chunks (any
+compression type other than "none"), for every file, every context satisfying the reader
+invariant and every sequence of reads (any buffer sizes) and `zck_clear_error` calls, everything
+the calls hand out is a prefix of: what was already buffered, followed by decoded content of
+chunks whose stored bytes match their index checksum (`Good`). -/
 theorem calls_release_verified (H : HashFn) (D : Decomp) (f : Bytes) (hdr : Hdr) (hz : hdr.compType ≠ 0) :
-    ∀ (ns : List Nat) (c : Ctx), c.hdr = hdr → Inv c → InvD c →
+    ∀ (ns : List Call) (c : Ctx), c.hdr = hdr → Inv c → InvD c →
       ∃ G : List Bytes, (∀ p ∈ G, Good H D hdr p) ∧
         ∃ rest, c.dc ++ G.flatten = (readCalls H D f c ns).1 ++ rest
   | [], c, _, _, _ => ⟨[], by simp, c.dc, by simp [readCalls]⟩
-  | n :: ns, c, hh, hI, hD => by
+  | .clearError :: ns, c, hh, hI, hD => by
+    obtain ⟨k1, k2, k3, k4⟩ := clearError_inv c
+    obtain ⟨G, g, rest, q⟩ := calls_release_verified H D f hdr hz ns _ (k1.trans hh) (k2 hI) (k3 hD)
+    exact ⟨G, g, rest, by simpa [readCalls, k4] using q⟩
+  | .read n :: ns, c, hh, hI, hD => by
     obtain ⟨a1, a2, a3, a4⟩ := compRead_ok H D f c n (hh ▸ hz) hI hD
     rw [hh] at a1 a4
     simp only [readCalls]
-    rcases a4 with hrel | ⟨e1, e2, mid, rest, e3, e4⟩
+    rcases a4 with hrel | ⟨e0, e1, e2, mid, rest, e3, e4⟩
     · obtain ⟨G1, g1, q1⟩ := hrel
       obtain ⟨G2, g2, rest2, q2⟩ := calls_release_verified H D f hdr hz ns _ a1 a2 a3
       refine ⟨G1 ++ G2, ?_, rest2, ?_⟩
@@ -56,15 +81,16 @@ theorem calls_release_verified (H : HashFn) (D : Decomp) (f : Bytes) (hdr : Hdr)
       · rw [List.flatten_append, ← List.append_assoc, ← q1, List.append_assoc, q2, List.append_assoc]
     · obtain ⟨G1, g1, q1⟩ := e3
       refine ⟨G1, g1, rest, ?_⟩
-      rw [readCalls_err H D f _ ns e1, List.append_nil, ← q1, e4]
+      rw [readCalls_fatal H D f _ ns e0 e1, List.append_nil, ← q1, e4]
 
 /-- the context right after a successful open satisfies the reader invariant, with nothing buffered -/
 theorem openCtx_inv (h : Hdr) : Inv (openCtx h) ∧ InvD (openCtx h) ∧ (openCtx h).dc = [] := by
   refine ⟨⟨Or.inr ⟨rfl, rfl⟩, fun _ => rfl⟩, fun _ _ _ _ => rfl, rfl⟩
 
-/-- **C15**: after opening a file whose chunks are decoded as a unit, no sequence of reads ever
-returns a byte that is not part of the decoded content of verified chunks, in order. -/
-theorem C15 (H : HashFn) (D : Decomp) (f : Bytes) (h : Hdr) (hz : h.compType ≠ 0) (ns : List Nat) :
+/-- **C15**: after opening a file whose chunks are decoded as a unit, no sequence of reads and
+error clearings ever returns a byte that is not part of the decoded content of verified chunks,
+in order. -/
+theorem C15 (H : HashFn) (D : Decomp) (f : Bytes) (h : Hdr) (hz : h.compType ≠ 0) (ns : List Call) :
     ∃ G : List Bytes, (∀ p ∈ G, Good H D h p) ∧
       ∃ rest, G.flatten = (readCalls H D f (openCtx h) ns).1 ++ rest := by
   obtain ⟨i1, i2, i3⟩ := openCtx_inv h
@@ -72,17 +98,18 @@ theorem C15 (H : HashFn) (D : Decomp) (f : Bytes) (h : Hdr) (hz : h.compType ≠
   exact ⟨G, g, rest, by rw [← q, i3, List.nil_append]⟩
 
 /-- **the failing read and the ones after it**: a chunk end that does not verify ends the call
-with -1, empties the decoded buffer and leaves the context in the error state — so (by
-`err_sticky`) no later read yields that chunk's data either -/
+with -1, empties the decoded buffer and leaves the context in a FATAL error state — which
+`zck_clear_error` refuses to clear, so (by `readCalls_fatal`) no later read yields that chunk's
+data either -/
 theorem bad_chunk_drops_buffer (H : HashFn) (D : Decomp) (c : Ctx) (ki : Nat) (ch : Chunk) (useDict : Bool)
     (out : Bytes) (fin : Bool) (r : RdOut) (c' : Ctx)
     (hbad : ∀ c2, endDchunk H D c ki ch useDict ≠ .ok c2)
     (h : stepEnd H D c ki ch useDict out fin = .done r c') :
-    r.ret = -1 ∧ c'.dc = [] ∧ c'.err = true := by
+    r.ret = -1 ∧ c'.dc = [] ∧ c'.err = true ∧ c'.fatal = true ∧ (clearError c').1 = false := by
   unfold stepEnd at h
   split at h
-  · simp only [Step.done.injEq] at h; obtain ⟨rfl, rfl⟩ := h; exact ⟨rfl, rfl, rfl⟩
-  · simp only [Step.done.injEq] at h; obtain ⟨rfl, rfl⟩ := h; exact ⟨rfl, rfl, rfl⟩
+  · simp only [Step.done.injEq] at h; obtain ⟨rfl, rfl⟩ := h; exact ⟨rfl, rfl, rfl, rfl, rfl⟩
+  · simp only [Step.done.injEq] at h; obtain ⟨rfl, rfl⟩ := h; exact ⟨rfl, rfl, rfl, rfl, rfl⟩
   · rename_i c2 hok; exact absurd hok (hbad c2)
 
 end Zck.C15
